@@ -28,6 +28,7 @@ type Func struct {
 	where   map[ast.Node]loc // every node stored in a block
 	boolDef map[types.Object]ast.Expr
 	assigns map[types.Object]int
+	defs    map[types.Object]ast.Expr
 }
 
 type loc struct {
@@ -525,4 +526,211 @@ func RootObj(info *types.Info, e ast.Expr) types.Object {
 			return nil
 		}
 	}
+}
+
+// ---------------------------------------------------------------- must-dataflow
+
+// MustAt decides, by a forward must-analysis over the CFG, whether on EVERY path
+// from the function entry to node n some fact accepted by gen was established (by a
+// branch edge whose condition implies it, or by a statement accepted by genStmt)
+// and not invalidated afterwards by a node accepted by kill. gen receives the
+// decomposed facts of an edge; genStmt and kill receive block nodes (statements or
+// expressions) and may be nil.
+func (f *Func) MustAt(n ast.Node, gen func(Fact) bool, genStmt func(ast.Node) bool, kill func(ast.Node) bool) bool {
+	b, idx, top, ok := f.Locate(n)
+	if !ok {
+		return false
+	}
+	nb := len(f.G.Blocks)
+	in := make([]bool, nb)
+	for i := range in {
+		in[i] = true // optimistic start for a greatest fixpoint
+	}
+	in[0] = false
+	// transfer through the nodes of a block up to (not including) limit
+	through := func(blk *cfg.Block, v bool, limit int) bool {
+		for i, nd := range blk.Nodes {
+			if i >= limit {
+				break
+			}
+			if kill != nil && kill(nd) {
+				v = false
+			}
+			if genStmt != nil && genStmt(nd) {
+				v = true
+			}
+		}
+		return v
+	}
+	edgeVal := func(p *cfg.Block, si int) bool {
+		v := through(p, in[p.Index], len(p.Nodes))
+		if len(p.Succs) == 2 && len(p.Nodes) > 0 && p.Kind != cfg.KindRangeLoop && p.Succs[0] != p.Succs[1] {
+			if cond, ok := p.Nodes[len(p.Nodes)-1].(ast.Expr); ok {
+				expr := f.caseAsComparison(p, cond)
+				for _, fa := range f.decompose(expr, si == 0, nil, 0) {
+					if gen != nil && gen(fa) {
+						v = true
+					}
+				}
+			}
+		}
+		return v
+	}
+	preds := make([][][2]int, nb) // block -> list of (pred index, succ slot)
+	for _, p := range f.G.Blocks {
+		if !p.Live {
+			continue
+		}
+		for si, s := range p.Succs {
+			preds[s.Index] = append(preds[s.Index], [2]int{int(p.Index), si})
+		}
+	}
+	for changed := true; changed; {
+		changed = false
+		for _, blk := range f.G.Blocks {
+			if !blk.Live || blk.Index == 0 {
+				continue
+			}
+			v := true
+			if len(preds[blk.Index]) == 0 {
+				v = false
+			}
+			for _, pr := range preds[blk.Index] {
+				if !edgeVal(f.G.Blocks[pr[0]], pr[1]) {
+					v = false
+				}
+			}
+			if v != in[blk.Index] {
+				in[blk.Index] = v
+				changed = true
+			}
+		}
+	}
+	v := through(b, in[b.Index], idx)
+	if v {
+		return true
+	}
+	// short-circuit context inside n's own statement (x != nil && x.f ...)
+	for _, fa := range f.shortCircuit(top, n, nil) {
+		if gen != nil && gen(fa) {
+			return true
+		}
+	}
+	return false
+}
+
+// Assigns reports whether node nd (a block node) assigns to an expression for
+// which match returns true (plain assignment, define, op-assign, inc/dec, range).
+// Function literals nested in nd are not entered.
+func Assigns(nd ast.Node, match func(lhs ast.Expr) bool) bool {
+	found := false
+	ast.Inspect(nd, func(x ast.Node) bool {
+		if found {
+			return false
+		}
+		switch s := x.(type) {
+		case *ast.FuncLit:
+			return false
+		case *ast.AssignStmt:
+			for _, l := range s.Lhs {
+				if match(l) {
+					found = true
+				}
+			}
+		case *ast.IncDecStmt:
+			if match(s.X) {
+				found = true
+			}
+		case *ast.RangeStmt:
+			if s.Key != nil && match(s.Key) {
+				found = true
+			}
+			if s.Value != nil && match(s.Value) {
+				found = true
+			}
+			return false
+		}
+		return true
+	})
+	return found
+}
+
+// IsNilCheck matches facts meaning "e is not nil": (e != nil, true) or (e == nil, false).
+func IsNilCheck(info *types.Info, fa Fact, e ast.Expr) bool {
+	be, ok := ast.Unparen(fa.Expr).(*ast.BinaryExpr)
+	if !ok || (be.Op != token.NEQ && be.Op != token.EQL) {
+		return false
+	}
+	x, y := be.X, be.Y
+	if isNilIdent(info, x) {
+		x, y = y, x
+	}
+	if !isNilIdent(info, y) || !SameExpr(info, x, e) {
+		return false
+	}
+	return (be.Op == token.NEQ) == fa.Truth
+}
+
+func isNilIdent(info *types.Info, e ast.Expr) bool {
+	id, ok := ast.Unparen(e).(*ast.Ident)
+	if !ok {
+		return false
+	}
+	_, isNil := info.ObjectOf(id).(*types.Nil)
+	return isNil
+}
+
+// Resolve follows single-assignment local aliases: for `x := e` (x written once)
+// Resolve(x) = Resolve(e). Other expressions are returned unchanged.
+func (f *Func) Resolve(e ast.Expr) ast.Expr {
+	for i := 0; i < 8; i++ {
+		id, ok := ast.Unparen(e).(*ast.Ident)
+		if !ok {
+			return e
+		}
+		obj := f.Info.ObjectOf(id)
+		if obj == nil || f.assigns[obj] != 1 {
+			return e
+		}
+		def := f.defOf(obj)
+		if def == nil {
+			return e
+		}
+		e = def
+	}
+	return e
+}
+
+func (f *Func) defOf(obj types.Object) ast.Expr {
+	if f.defs == nil {
+		f.defs = map[types.Object]ast.Expr{}
+		ast.Inspect(f.Body, func(n ast.Node) bool {
+			if s, ok := n.(*ast.AssignStmt); ok && len(s.Lhs) == len(s.Rhs) {
+				for i, l := range s.Lhs {
+					if id, ok := l.(*ast.Ident); ok {
+						if o := f.Info.ObjectOf(id); o != nil {
+							f.defs[o] = s.Rhs[i]
+						}
+					}
+				}
+			}
+			return true
+		})
+	}
+	return f.defs[obj]
+}
+
+// SameResolved is SameExpr after resolving local aliases on both sides at every level.
+func (f *Func) SameResolved(a, b ast.Expr) bool {
+	a, b = f.Resolve(a), f.Resolve(b)
+	if SameExpr(f.Info, a, b) {
+		return true
+	}
+	// resolve inner receivers: x.f vs y.f where x aliases y
+	sa, ok1 := ast.Unparen(a).(*ast.SelectorExpr)
+	sb, ok2 := ast.Unparen(b).(*ast.SelectorExpr)
+	if ok1 && ok2 && f.Info.ObjectOf(sa.Sel) == f.Info.ObjectOf(sb.Sel) {
+		return f.SameResolved(sa.X, sb.X)
+	}
+	return false
 }
